@@ -3,7 +3,7 @@
     the same verdict, the same result, the same conformance judgement. *)
 From Coq Require Import List ZArith String Bool Arith Lia.
 From Thunder Require Import Lib.Json Lib.JsonNorm GqlTyping.Types GqlTyping.Parse GqlTyping.ProofsParse GqlTyping.ProofsExec
-     GqlTyping.Typing GqlTyping.ProofsTyping GqlTyping.Introspect GqlTyping.ProofsIntrospect.
+     GqlTyping.Typing GqlTyping.ProofsTyping GqlTyping.ProofsValid GqlTyping.Introspect GqlTyping.ProofsIntrospect.
 Import ListNotations.
 Open Scope string_scope.
 Open Scope list_scope.
@@ -199,3 +199,19 @@ Proof.
   intros Hwf Hr Ht He. rewrite (read_introspect x Hwf) in Hr. inversion Hr; subst.
   apply (proj1 (eval_conforms_sim _ _ (sch_sim_sym _ _ (erase_normalize_sim x Hwf)) tbl fuel) false t sel v j Ht He).
 Qed.
+
+(** Completeness of rejection judged on the advertised schema: an ill-formed applicable part, found by
+    reading the printed JSON alone, makes the real PrepareQuery (over the built schema) fail. *)
+Lemma rejection_complete_advertised v x y root q tn' l' :
+  xwf x = true -> read_types (introspect_types x) = Some y ->
+  applies (erase y) (q_frags q) root (q_sel q) tn' l' -> bad (erase y) tn' l' ->
+  forall n, prepare v (erase x) root q <> ROk n.
+Proof.
+  intros Hwf Hr Ha Hb n. rewrite <- (truthful_prepare x y v root q Hwf Hr).
+  exact (ProofsValid.rejection_complete_all v (erase y) root q tn' l' Ha Hb n).
+Qed.
+
+Lemma ref_readable_iff x t :
+  (wrappers t < ref_depth -> read_ref ref_depth (ref_json x ref_depth t) = Some t) /\
+  (ref_depth <= wrappers t -> read_ref ref_depth (ref_json x ref_depth t) = None).
+Proof. split; [apply read_ref_roundtrip | apply read_ref_too_deep]. Qed.
